@@ -34,11 +34,11 @@ type c18Call struct {
 }
 
 type c18Case struct {
-	Kind       string     `json:"kind"` // "faults"
-	Descs      []c18Desc  `json:"descs"`
-	Calls      []c18Call  `json:"calls"`
-	Goroutines int        `json:"goroutines"`
-	Repeats    int        `json:"repeats"`
+	Kind       string    `json:"kind"` // "faults"
+	Descs      []c18Desc `json:"descs"`
+	Calls      []c18Call `json:"calls"`
+	Goroutines int       `json:"goroutines"`
+	Repeats    int       `json:"repeats"`
 }
 
 type firedErr struct {
@@ -46,7 +46,9 @@ type firedErr struct {
 	remaining int64
 }
 
-func (e *firedErr) Error() string { return fmt.Sprintf("injected by #%d remaining=%d", e.desc, e.remaining) }
+func (e *firedErr) Error() string {
+	return fmt.Sprintf("injected by #%d remaining=%d", e.desc, e.remaining)
+}
 
 func descMatches(d c18Desc, c c18Call) bool {
 	if d.Op != c.Op {
@@ -408,7 +410,9 @@ func c18Server(t *testing.T) {
 		}
 		count := rapid.IntRange(1, 6).Draw(rt, "count")
 		s.Faults.Add(faults.Description{Operation: "GetTopic", Parameters: map[string]string{"topic": "projects/p/topics/a"}, Count: int64(count),
-			OnFault: func(faults.Description, faults.Parameters) error { return status.Error(codes.Unavailable, "verif injected") }})
+			OnFault: func(faults.Description, faults.Parameters) error {
+				return status.Error(codes.Unavailable, "verif injected")
+			}})
 		nA := rapid.IntRange(0, 12).Draw(rt, "na")
 		nB := rapid.IntRange(0, 6).Draw(rt, "nb")
 		var wg sync.WaitGroup
